@@ -103,6 +103,15 @@ func (g *Gen) opts(t *TestSpec) {
 	if g.R.P(g.P.PIssuePath) {
 		t.OptPath = strp(Pick(g.R, []string{"other", "x.y", "items[0]"}))
 	}
+	if t.OptMsg != nil && g.R.P(30) {
+		t.OptMsgFunc = true
+	}
+	if g.R.P(g.P.POpts / 3) {
+		t.OptParams = [][2]string{{"hint", fmt.Sprintf("h%d", g.R.Intn(100))}}
+		if g.R.P(40) {
+			t.OptParams = append(t.OptParams, [2]string{"limit", fmt.Sprint(g.R.Intn(50))})
+		}
+	}
 }
 
 func (g *Gen) userPred(kind string) *Pred {
